@@ -487,24 +487,15 @@ theorem RowStep.rowsLe {s s' : State} {c B : Nat} (hs : RowStep s s' c) (h : Row
     · subst hr
       have := h row (List.mem_of_getElem? hrow); omega
 
-theorem step_modulus (s : State) (op : AdjM.Op) : (step s op).1.modulus = s.modulus := by
-  cases op with
-  | addNode => rfl
-  | addNodeFromEdges es => rfl
-  | clear => rfl
-  | addEdge a b w => exact (addEdge_rowStep s a b w).modulus
-  | updateEdge a b w => exact (updateEdge_rowStep s a b w).modulus
-  | setEdgeWeight e w => exact (setEdgeWeight_rowStep s e w).modulus
+theorem step_modulus (s : State) (op : AdjM.Op) : (step s op).1.modulus = s.modulus :=
+  (AdjProofs.step_shape s op).1
 
-theorem step_length (s : State) (op : AdjM.Op) :
+/-- `hfit`: an `add_node*` call is not made on a list that is full for its index type (there it panics — /repo
+commit 8cab180 — and the count stays; `AdjProofs.nAfter` is the count after a call that does not panic) -/
+theorem step_length (s : State) (op : AdjM.Op)
+    (hfit : (op = .addNode ∨ ∃ es, op = .addNodeFromEdges es) → s.modulus = 0 ∨ s.suc.length < s.modulus) :
     (step s op).1.suc.length = AdjProofs.nAfter s.suc.length op := by
-  cases op with
-  | addNode => simp [step, AdjM.addNode, AdjProofs.nAfter]
-  | addNodeFromEdges es => simp [step, AdjM.addNodeFromEdges, AdjProofs.nAfter]
-  | clear => simp [step, AdjM.clear, AdjProofs.nAfter]
-  | addEdge a b w => exact (addEdge_rowStep s a b w).length
-  | updateEdge a b w => exact (updateEdge_rowStep s a b w).length
-  | setEdgeWeight e w => exact (setEdgeWeight_rowStep s e w).length
+  rw [(AdjProofs.step_shape s op).2, AdjProofs.nAfterC_of_fit _ _ op hfit]
 
 /-- **every call preserves well-formedness** (an `add_node*` call must fit the index type, an
 `add_node_from_edges` call must name existing nodes) -/
@@ -518,20 +509,22 @@ theorem step_wf (s : State) (op : AdjM.Op) (h : ListWF s)
   | clear => exact ⟨by simp [step, AdjM.clear], by intro r hr; simp [step, AdjM.clear] at hr⟩
   | addNode =>
     have hf := hfit (Or.inl rfl)
+    have hnx := AdjProofs.nextNodeIndex_fit s hf
     refine ⟨?_, ?_⟩
-    · simp only [step, AdjM.addNode, List.length_append, List.length_cons, List.length_nil]; omega
+    · simp only [step, AdjM.addNode, hnx, List.length_append, List.length_cons, List.length_nil]; omega
     · intro r hr x hx
-      simp only [step, AdjM.addNode, List.length_append, List.length_cons, List.length_nil,
+      simp only [step, AdjM.addNode, hnx, List.length_append, List.length_cons, List.length_nil,
         List.mem_append, List.mem_singleton] at hr ⊢
       rcases hr with hr | hr
       · have := h.tgt r hr x hx; omega
       · subst hr; simp at hx
   | addNodeFromEdges es =>
     have hf := hfit (Or.inr ⟨es, rfl⟩)
+    have hnx := AdjProofs.nextNodeIndex_fit s hf
     refine ⟨?_, ?_⟩
-    · simp only [step, AdjM.addNodeFromEdges, List.length_append, List.length_cons, List.length_nil]; omega
+    · simp only [step, AdjM.addNodeFromEdges, hnx, List.length_append, List.length_cons, List.length_nil]; omega
     · intro r hr x hx
-      simp only [step, AdjM.addNodeFromEdges, List.length_append, List.length_cons, List.length_nil,
+      simp only [step, AdjM.addNodeFromEdges, hnx, List.length_append, List.length_cons, List.length_nil,
         List.mem_append, List.mem_singleton] at hr ⊢
       rcases hr with hr | hr
       · have := h.tgt r hr x hx; omega
@@ -547,16 +540,23 @@ theorem step_rowsLe (s : State) (op : AdjM.Op) (B : Nat) (h : RowsLe B s) :
   | clear => intro r hr; simp [step, AdjM.clear] at hr
   | addNode =>
     intro r hr
-    simp only [step, AdjM.addNode, List.mem_append, List.mem_singleton] at hr
-    rcases hr with hr | hr
-    · have := h r hr; omega
-    · subst hr; simp
+    by_cases hf : s.modulus = 0 ∨ s.suc.length < s.modulus
+    · simp only [step, AdjM.addNode, AdjProofs.nextNodeIndex_fit s hf, List.mem_append, List.mem_singleton] at hr
+      rcases hr with hr | hr
+      · have := h r hr; omega
+      · subst hr; simp
+    · simp only [step, AdjM.addNode, AdjProofs.nextNodeIndex_full s hf] at hr
+      have := h r hr; omega
   | addNodeFromEdges es =>
     intro r hr
-    simp only [step, AdjM.addNodeFromEdges, List.mem_append, List.mem_singleton] at hr
-    rcases hr with hr | hr
-    · have := h r hr; omega
-    · subst hr; simp [opBudget]
+    by_cases hf : s.modulus = 0 ∨ s.suc.length < s.modulus
+    · simp only [step, AdjM.addNodeFromEdges, AdjProofs.nextNodeIndex_fit s hf, List.mem_append,
+        List.mem_singleton] at hr
+      rcases hr with hr | hr
+      · have := h r hr; omega
+      · subst hr; simp [opBudget]
+    · simp only [step, AdjM.addNodeFromEdges, AdjProofs.nextNodeIndex_full s hf] at hr
+      have := h r hr; omega
 
 theorem run_cons_fst (s : State) (op : AdjM.Op) (ops : List AdjM.Op) :
     (run s (op :: ops)).1 = (run (step s op).1 ops).1 := by
@@ -569,8 +569,8 @@ theorem run_wf : ∀ (ops : List AdjM.Op) (s : State), ListWF s →
     rw [AdjProofs.fits_iff] at hf
     rw [run_cons_fst]
     apply run_wf ops _ (step_wf s op h hf.1 ht.1)
-    · rw [step_modulus, step_length]; exact hf.2
-    · rw [step_length]; exact ht.2
+    · rw [step_modulus, step_length s op hf.1]; exact hf.2
+    · rw [step_length s op hf.1]; exact ht.2
 
 theorem run_rowsLe : ∀ (ops : List AdjM.Op) (s : State) (B : Nat), RowsLe B s →
     RowsLe (B + budget ops) (run s ops).1
@@ -590,9 +590,9 @@ or panicking — is the insertion log's image (`LAbs`) and its `visit` table is 
 theorem adjListTable_consistent_all_histories (m : Nat) (ops : List AdjM.Op)
     (hf : C05T.LFits m 0 ops) (ht : TargetsOk 0 ops) (hb : ListBounded (run (AdjM.new m) ops).1) :
     TableConsistent (nodeIndices (run (AdjM.new m) ops).1) (adjListTable (run (AdjM.new m) ops).1) ∧
-    C05T.LAbs (run (AdjM.new m) ops).1 (C05T.lspecRun {} ops).1 :=
+    C05T.LAbs (run (AdjM.new m) ops).1 (C05T.lspecRun m {} ops).1 :=
   ⟨adjListTable_consistent _ (run_wf ops (AdjM.new m) (new_wf m) hf ht) hb,
-    (C05T.C05_list_all_histories m ops hf).1⟩
+    (C05T.C05_list_all_histories m ops).1⟩
 
 /-- the bound on the rows follows from a bound on the history: at most 100 successor entries are ever added -/
 theorem listBounded_run (m : Nat) (ops : List AdjM.Op) (hbud : budget ops ≤ 100) :
